@@ -1501,7 +1501,7 @@ def r_nbest(m, rep, R):
             args = t[2]
             ok = (len(rng) == 1 and rng[0][2] is not None and canon(rng[0][2]) in cell_names
                   and len(args) == 4 and canon(args[0]) == canon(('addr', V(rng[0][1])))
-                  and args[2] == V(m.p_cache) and args[3] == V(m.p_finargs) and args[1][0] == 'addr')
+                  and args[2] in (V(m.p_cache), ('addr', V(m.p_cache))) and args[3] == V(m.p_finargs) and args[1][0] == 'addr')
             detail = 'finalizer(%s) over %s' % (', '.join(canon(a) for a in args), canon(rng[0][2]) if rng and rng[0][2] else '?')
             if ok:
                 cnt = args[1][1]
